@@ -3,10 +3,15 @@ package faultio
 
 import (
 	"errors"
+	"fmt"
 	"io"
 )
 
 var ErrInjected = errors.New("injected I/O fault")
+
+// ErrWrappedEOF is a transport failure whose error WRAPS io.EOF (as net.OpError and many decompressors do): a failure, not the
+// clean end of the stream — only io.EOF itself is that.
+var ErrWrappedEOF = fmt.Errorf("transport closed: %w", io.EOF)
 
 // Reader delivers data in chunks of the given sizes (cycled), optionally returns data together with
 // io.EOF on the last chunk, and fails with ErrInjected once FailAt bytes have been delivered (FailAt < 0: never).
@@ -20,6 +25,7 @@ type Reader struct {
 	DataEOF   bool
 	FailAt    int
 	Transient bool
+	Err       error // the error reported at the fault (nil: ErrInjected)
 	pos, turn int
 	reported  bool
 }
@@ -29,6 +35,9 @@ func (r *Reader) Read(p []byte) (int, error) {
 		return r.readTransient(p)
 	}
 	if r.FailAt >= 0 && r.pos >= r.FailAt {
+		if r.Err != nil {
+			return 0, r.Err
+		}
 		return 0, ErrInjected
 	}
 	if r.pos >= len(r.Data) {
@@ -84,6 +93,9 @@ func (r *Reader) readTransient(p []byte) (int, error) {
 	r.pos += n
 	if !r.reported && r.FailAt >= start && r.FailAt < r.pos {
 		r.reported = true
+		if r.Err != nil {
+			return n, r.Err
+		}
 		return n, ErrInjected
 	}
 	return n, nil
